@@ -301,6 +301,25 @@ void NewRecord(LargeWord NStart) {
 void OpenFile(void) {
     Word h;
 
+    /* relocation / export entries that the previous code file could not attach
+       to a record any more (they were registered behind its last data) must
+       not end up in this one */
+
+    while (PatchList) {
+        PatchLast = PatchList;
+        PatchList = PatchLast->Next;
+        free(PatchLast->Ref);
+        free(PatchLast);
+    }
+    PatchLast = NULL;
+    while (ExportList) {
+        ExportLast = ExportList;
+        ExportList = ExportLast->Next;
+        free(ExportLast->Name);
+        free(ExportLast);
+    }
+    ExportLast = NULL;
+
     errno   = 0;
     PrgFile = fopen(OutName, OPENWRMODE);
     if (!PrgFile) {
